@@ -211,3 +211,14 @@ ASSUMPTIONS = [
     'get_matching_rules_prioritized returns a permutation of the matching rules (assumed contract)',
     'R1, R3, R4 (dispatch closure lifted: hit_policy and the evaluated table become parameters), R7, R10, R11, R14',
 ]
+
+BOUNDED = {'C12': [{'name': 'single-structural-faults-never-crash', 'script': 'modelfaults.py', 'args': ['--cover'], 'thorough_args': ['--models', '1000'],
+                    'functions': ['dmntk_model::parse', 'ModelEvaluator::new (all builders of model-evaluator)', 'ModelEvaluator::evaluate_invocable for every decision / knowledge model / decision service with an empty context'],
+                    'bound': 'quick: the 15 example models of a greedy cover of every element and attribute name used by the 148 shipped example models (thorough: all 148), each with every single fault of the kinds delete element, '
+                             'duplicate element, empty text node, delete attribute, retarget href to a missing id (quick about 14 000 models, thorough about 64 000): parse + build + evaluate every invocable on the real code, '
+                             'no panic and no crash of the process. The recursive example N_0088 is excluded (known finding: stack overflow); self / ancestor retargeting is not generated.'}]}
+
+BOUNDED['C03'] = [{'name': 'hit-policy-differential', 'script': 'hpdiff.py', 'args': [],
+                   'functions': ['EvaluatedDecisionTable::evaluate_hit_policy_* (all 11)', 'get_matching_rules / get_matching_rules_prioritized / get_result', 'build_decision_table_evaluator', 'parse_decision_table'],
+                   'bound': 'every decision table with one number input, 1..3 rules (input entry 1, 2 or -), one or two output clauses with two possible values each and priority lists, under each of the 11 hit policies, evaluated for '
+                            'A = 1, 2, 3 (48 078 evaluations through DMN XML on the real code) against the hit policy semantics of DMN 1.3 section 8.2.8 written out in Python; also decides the policies when a rewritten body leaves the extractor\'s reach'}]
